@@ -22,6 +22,19 @@ def handle (op : String) (args : List String) : Option String :=
         | .panic _ => "panic"
       | none => "bad-op"
     | _ => "bad-op"
+  | "load_perm" =>
+    -- load_perm <i0,i1,…> <hex>
+    some <| match args with
+    | [p, h] =>
+      match (p.splitOn ",").mapM String.toNat?, bytesOfHex h with
+      | some order, some bs =>
+        match loadDocOrd (some order) bs with
+        | .ok l => showLoaded l
+        | .err "ext" => "ext"
+        | .err _ => "err"
+        | .panic _ => "panic"
+      | _, _ => "bad-op"
+    | _ => "bad-op"
   | _ => none
 
 end Lopdf.Driver.C02
